@@ -53,6 +53,58 @@ def run_case(desc):
     return len(oc.ALL_BACKENDS), viols, (hash(tuple(outcome)), nontrivial)
 
 
+def thermal_compiled_case(cooling):
+    """The temperature equation is written in symbols (npar, gamma, kerg, kc[i]) whose values come from helper
+    functions and constants of the generated library.  Here the rendered dense sources are compiled and executed:
+    d(Tgas)/dt must equal (gamma - 1) * (0 - sum_i kc_i * prod y) / k_B / n_particles with n_particles = the sum of
+    the SPECIES abundances, k_B = 1.380658e-16 erg/K (CGS), gamma the user's value or, at the default -1, what
+    GetGamma returns, and kc_i the values the compiled EvalCoolingRates returns."""
+    from ..ctext.stmts import read_macros
+    from ..harness import oderun as OR
+    from ..harness.render import render, reset_globals, quiet
+
+    reset_globals()
+    from naunet.network import Network
+    from naunet.reactions.reaction import Reaction
+    from naunet.reactiontype import ReactionType
+
+    case = {"thermal_compiled": list(cooling)}
+    with quiet():
+        reacs = [Reaction(list(r), list(p_), -1.0, -1.0, 1e-10, 0.0, 0.0, ReactionType.GAS_TWOBODY, i + 1) for i, (r, p_) in enumerate(oc.PRIMORDIAL)]
+        net = Network(reacs, cooling=list(cooling))
+        files = render(net, "dense", OR.TEMPLATES_CVODE)
+    mac = read_macros(files["include/naunet_macros.h"])
+    neq, nsp = mac.value("NEQUATIONS"), mac.value("NSPECIES")
+    slot = {n_[4:]: mac.value(n_) for n_ in mac.text if n_.startswith("IDX_") and not n_.startswith("IDX_ELEM_")}
+    alias = {"H": "HI", "H+": "HII", "He": "HeI", "He+": "HeII", "He++": "HeIII", "e-": "eM"}
+    yvals = [[0.5 + ((7 * i + 3 * g) % 11) / 8.0 for i in range(neq)] for g in range(3)]
+    for yv, T in zip(yvals, (8.0e3, 2.5e4, 1.2e4)):
+        yv[slot["TGAS"]] = T
+    base = {"nH": 1e4, "Tgas": 50.0, "zeta": 1.3e-17, "Av": 1.0, "omega": 0.5}
+    plist = [dict(base, mu=-1.0, gamma=-1.0), dict(base, mu=1.3, gamma=1.6), dict(base, mu=-1.0, gamma=5.0 / 3.0)]
+    res = OR.build_and_run(files, "dense", yvals, plist)
+    if "error" in res:
+        return 1, [(f"C01:thermal-compiled:{res['error']}", f"cooling {cooling}: {res['detail'][:300]}", case)]
+    viols = []
+    KB = 1.380658e-16
+    for g, (yv, pr, r) in enumerate(zip(yvals, plist, res["runs"])):
+        npar = sum(yv[:nsp]) if sorted(v for k_, v in slot.items() if k_ != "TGAS") == list(range(nsp)) else None
+        gam = pr["gamma"] if pr["gamma"] >= 0 else r["gamma_helper"]
+        tot = 0.0
+        for i, name in enumerate(cooling):
+            term = r["kc"][i]
+            for x in oc.COOLING[name]:
+                term *= yv[slot[alias[x]]]
+            tot += term
+        exp = (gam - 1.0) * (0.0 - tot) / KB / npar
+        got = r["ydot"][slot["TGAS"]]
+        if not (got == exp or abs(got - exp) <= 1e-10 * max(abs(exp), abs(got))):
+            why = "number density helper" if abs(r["npar"] - npar) > 1e-12 * npar else "other factor"
+            viols.append((f"C01:thermal-compiled:{'npar' if why.startswith('number') else 'value'}", f"cooling {cooling}, state {g}: compiled d(Tgas)/dt = {got!r}, the law with n = sum of species abundances = {npar!r} (GetNumDens returns {r['npar']!r}), gamma = {gam!r}, kc = {r['kc']} gives {exp!r}", case))
+            break
+    return 1, viols
+
+
 def run(ctx):
     allc = list(cases(ctx.tier))
     seen = set()
@@ -71,13 +123,18 @@ def run(ctx):
         if out != "error":
             outcomes.add(out[0])
             nontriv += int(out[1])
+    tc = [["CIC_HI"], ["CIC_HI", "RC_HII"], ["CIC_HeI", "CIC_He_2S", "RC_HeII"]] + ([list(oc.COOLING)] if ctx.tier != "quick" else [])
+    for n, viols in ctx.pmap(thermal_compiled_case, tc):
+        evals += n
+        ctx.absorb(viols)
     fam = {}
     for d in uniq:
         fam[d.get("family", "?")] = fam.get(d.get("family", "?"), 0) + 1
     ctx.assumptions += [
         "rate coefficients k[i], kc[i] are free symbols: equality is decided as a polynomial identity, i.e. for all abundance vectors and rate values",
         "species->identifier rule used by the reference: '#'->'G', '+'->'I' (neutral 'I'), '-'->'M' (documented in Species.alias)",
-        "cuSPARSE back-end: kernel *text* is read, never compiled (no CUDA in the image)",
+        "cuSPARSE back-end: the kernel text is read here; C03 executes it on the host",
+        "the symbols of the temperature equation are bound to values by compiling and running the dense sources on three states (thermal_compiled_case): particle density = sum of the species abundances, k_B in CGS, gamma = user value or GetGamma at the default",
     ]
     return {
         "evaluations": evals,
@@ -94,6 +151,9 @@ def run(ctx):
 
 
 def replay(ctx, case):
+    if "thermal_compiled" in case:
+        ctx.absorb(thermal_compiled_case(case["thermal_compiled"])[1])
+        return
     case = dict(case)
     case.pop("backend", None)
     n, viols, out = run_case(case)
